@@ -24,10 +24,11 @@ def main(tier):
         for n, sizes, pos, es, opts in cases:
             row = [n] + [v for i in range(n) for v in (sizes[i][0], sizes[i][1], pos[i][0], pos[i][1])] + [len(es)] + [v for e in es for v in e] + [opts]
             f.write(' '.join(map(str, row)) + '\n')
+    phase_cases = 200 if quick else 1200       # runs whose main pipeline phases are recorded too (observations)
     recs, hung, skip = [], [], 0
     of = os.path.join(d, 'hola.json')
     while skip < len(cases):
-        rc, out = V.run(['timeout', str(60 + 3 * (len(cases) - skip)), hd, 'hola', cf, of + '.part', str(skip)], timeout=3000)
+        rc, out = V.run(['timeout', str(60 + 3 * (len(cases) - skip)), hd, 'hola', cf, of + '.part', str(skip), str(phase_cases)], timeout=3000)
         got = [json.loads(l.lstrip(',')) for l in open(of + '.part').read().splitlines()[1:] if l.startswith(('{', ',{'))]
         recs += got
         skip += len(got)
@@ -63,6 +64,18 @@ def main(tier):
                 key = ('assertion:' + re.sub(r'[^A-Za-z0-9_>!=<.()-]+', '', m.group(1))[:50] + ('@' + ml.group(2) if ml else '')) if m else 'assertion'
             vd.violation(key, '%s %s: n=%d sizes=%s edges=%s opts=%d' % (t, what[:160].replace('\n', ' '), x['n'], x['size'], x['edges'], x['opts']),
                          {k: x.get(k) for k in ('n', 'size', 'edges', 'opts', 'what', 'nodes', 'routes')} if x['n'] <= 10 else {'n': x['n'], 'edges': x['edges'], 'opts': x['opts'], 'what': what})
+    # phase-level observations printed by the specification (never violations)
+    obs, seen_chunks, phase_runs = {}, set(), 0
+    for m in re.finditer(r'<<"OBS", (\d+), (\{.*?\}), (\d+)>>', r.out, re.S):
+        if m.group(1) in seen_chunks:
+            continue
+        seen_chunks.add(m.group(1))
+        phase_runs += int(m.group(3))
+        for o in V.parse_tla_value(m.group(2)):
+            kk = '%s:%s' % (o[1], o[2])
+            obs[kk] = obs.get(kk, 0) + 1
+    ev.cov['phase_observations'] = {'runs_with_recorded_phases': phase_runs, 'by_phase_and_kind': obs,
+                                    'meaning': 'logged state of a main pipeline phase violates its own constraints / has overlapping nodes after an overlap-preventing destress; not part of the statement'}
     ev.cov['evaluations'] = len(recs)
     ev.cov['distinct_nontrivial'] = nontriv
     ev.cov['runs_left_by_exception'] = thrown
